@@ -176,6 +176,7 @@ func CheckFnParamDef(params []*Param) error {
 		if _, ok := names[p.Name]; ok {
 			return fmt.Errorf("repeated parameters %s", p.Name)
 		}
+		names[p.Name] = struct{}{}
 		if p.Val != nil {
 			if !optional {
 				optional = true
